@@ -222,7 +222,7 @@ def check_polytomy(item):
                     bad.append((kind, f"{model[0]}/{tips} {_nwk_multi(tree, bl)}: {type(e).__name__}: {str(e)[:120]}"))
                     return bad, nev
                 if not abs(v - ref) <= RTOL * max(1.0, abs(ref)):
-                    bad.append((kind, f"{model[0]}/{tips}: {_nwk_multi(tree, dict(bl, **{z: 0.0 for z in zero}))} gives "
+                    bad.append((kind, f"{model[0]}/{tips}: {_nwk_multi(tree, {**bl, **{z: 0.0 for z in zero}})} gives "
                                       f"{v!r}, {_nwk_multi(t, bl)} gives {ref!r}"))
                     return bad, nev
     return bad, nev
@@ -365,7 +365,7 @@ def sig(it, name):
 
 def run(run):
     its = items(run.tier, run.seed)
-    order = {"taxa_seq": 0, "columns": 1, "reroot": 2, "children": 3, "representation": 4}
+    order = {"taxa_seq": 0, "columns": 1, "reroot": 2, "children": 3, "representation": 4, "polytomy": 5}
     its.sort(key=lambda it: (-it["n"], order[it["part"]]))
     res = pmap(_work, [its[i::128] for i in range(128)])
     evals = 0
